@@ -178,9 +178,9 @@ partial def decodeItems (k : Nat) (ts : List String) (acc : List Item) : Option 
   | 0 => some (acc.reverse, ts)
   | k + 1 =>
     match ts with
-    | "D" :: n :: l :: v :: imp :: rest => do
-      let n ← hexStr n; let l ← hexStr l; let v ← hexStr v
-      decodeItems k rest (.decl { name := n, lowerName := l, value := v, important := imp == "1" } :: acc)
+    | "D" :: n :: l :: v :: imp :: c :: rest => do
+      let n ← hexStr n; let l ← hexStr l; let v ← hexStr v; let c ← hexStr c
+      decodeItems k rest (.decl { name := n, lowerName := l, value := v, important := imp == "1", comments := c } :: acc)
     | "X" :: t :: ok :: rest => do
       let t ← hexStr t
       decodeItems k rest (.other t (ok == "1") :: acc)
@@ -209,7 +209,7 @@ def hx (s : Str) : String := if s.isEmpty then "-" else hexOfStr (String.ofList 
 
 def encodeItems (items : List Item) : String :=
   " ".intercalate (items.map fun it => match it with
-    | .decl d => s!"D {hx d.name} {hx d.lowerName} {hx d.value} {if d.important then 1 else 0}"
+    | .decl d => s!"D {hx d.name} {hx d.lowerName} {hx d.value} {if d.important then 1 else 0} {hx d.comments}"
     | .other t ok => s!"X {hx t} {if ok then 1 else 0}")
 
 partial def encodeNodes (nodes : List Node) : String :=
